@@ -20,7 +20,12 @@
 //     (circular sequences).  Matches that start at or after begin and end within
 //     begin+length are required; matches that end within the next 64 symbols are
 //     neither required nor forbidden; anything else reported is a violation.
-//     length < 0 (whole sequence) is generated as -1 only.
+//     length < 0 (whole sequence) is generated as -1 only; begin is 0..len+1
+//     (negative begin is silently clamped by the Go wrappers: not generated).
+//   - Pattern strings with more than 64 positions are not generated (the builder
+//     does not check the limit it documents; outside the quantifier of the property).
+//   - IsPatternMatchSequence (predicat.go) is judged on its verdict only, with
+//     bothStrand false and true, on the whole sequence.
 //   - Indels: the statement is about edit distance only, so obligatory marks are not
 //     generated with indels, the budget is kept below the number of positions (else
 //     the empty substring "matches"), and sequences are over acgt (the bit-parallel
